@@ -370,6 +370,24 @@ def run(chk: Check) -> None:
             chk.violation("file.independence", f"log delivered {len(got_s)} packets, its lines one by one {len(expect)}", {"op": "file", "lines": lines})
         for ln in lines:
             D.add("recv.fileline", ["True" if _datable(ln) else "False", esc(ln)], _fileline_outcome(Packet, exc, ln))
+        # the same lines as a saved-state dict {time stamp: rest of the line} (also with undatable keys)
+        d = {}
+        for k, ln in enumerate(lines):
+            key, rest = (ln[:26], ln[27:]) if len(ln) > 27 else (ln, "")
+            if key in d:
+                continue
+            d[key] = rest
+        gotd, errd = rt.replay_dict(d)
+        chk.evaluations += 1
+        if errd is not None:
+            chk.violation(f"dict.escape:{type(errd).__name__}", f"replaying a {len(d)}-entry saved-state dict raised {errd!r}", {"op": "dict", "packets": d})
+        else:
+            exp_d = []
+            for key, rest in d.items():
+                g1, _e1 = rt.replay_dict({key: rest})
+                exp_d += [(m._pkt.dtm.isoformat(timespec="microseconds"), str(m._pkt)) for m in g1]
+            if [(m._pkt.dtm.isoformat(timespec="microseconds"), str(m._pkt)) for m in gotd] != exp_d:
+                chk.violation("dict.independence", f"saved-state dict delivered {len(gotd)} packets, its entries one by one {len(exp_d)}", {"op": "dict", "packets": d})
     chk.extra["file_streams"] = n_files
     M.parse_payload = real_parse
     M.MessageBase._idx = real_idx
